@@ -23,6 +23,7 @@ import (
 	"strings"
 	"sync"
 	"unicode"
+	"unicode/utf8"
 
 	"github.com/octohelm/gengo/pkg/inflector"
 	"github.com/octohelm/gengo/pkg/zzsync"
@@ -144,7 +145,12 @@ func cases(w string) []string {
 	return []string{strings.ToLower(w), strings.ToUpper(w), strings.ToUpper(w[:1]) + strings.ToLower(w[1:])}
 }
 
-var prefixes = []string{"", "old-", "old ", "big.", "é ", "x9 ", "Old ", "OLD-", "a b-c ", "ſ-"}
+var prefixes = []string{"", "old-", "old ", "big.", "é ", "x9 ", "Old ", "OLD-", "a b-c ", "ſ-", "line one\nold ", "tab\tsep-"}
+
+func lenChanging(r rune) bool {
+	n := utf8.RuneLen(r)
+	return utf8.RuneLen(unicode.ToLower(r)) != n || utf8.RuneLen(unicode.ToUpper(r)) != n || utf8.RuneLen(unicode.ToTitle(r)) != n || len(strings.ToLower(string(r))) != n || len(strings.ToUpper(string(r))) != n
+}
 
 func checkTotalPure(c *core.Ctx, f int, s string) (string, bool) {
 	c.Eval(1)
@@ -189,6 +195,9 @@ func checkPrefix(c *core.Ctx, f int, prefix, w string) {
 		class := ""
 		if prefix != "" && len(alone) > 0 && got == prefix+prefix[:1]+alone[1:] {
 			class = "C20-first-letter-taken-from-whole-input"
+		}
+		if i := strings.LastIndex(prefix, "\n"); i >= 0 && got == prefix[i+1:]+alone {
+			class = "C20-text-before-a-newline-dropped"
 		}
 		c.Fail(class, Case{F: f, Prefix: q(prefix), Word: w}, "%s(%s) = %q, want %q (everything before the irregular word preserved, the word inflected as on its own: %s(%q) = %q)", fnNames[f], q(prefix+w), got, prefix+alone, fnNames[f], w, alone)
 	}
@@ -359,7 +368,7 @@ func judge(c *core.Ctx, sc SchedCase, trace []int, results [][]string, s *zzsync
 		return
 	}
 	if s.Stuck {
-		c.Fail("", cs, "scenario %q with schedule %v: a caller blocked for 10 s on something other than the hooked sync operations while the others were held back (%v): the call does not return under this schedule", sc.Scenario, trace, s.Trace)
+		c.Fail("", cs, "scenario %q with schedule %v: a caller blocked for 60 s on something other than the hooked sync operations while the others were held back (%v): the call does not return under this schedule", sc.Scenario, trace, s.Trace)
 		return
 	}
 	if len(s.Panics()) > 0 {
@@ -376,6 +385,8 @@ func judge(c *core.Ctx, sc SchedCase, trace []int, results [][]string, s *zzsync
 	}
 }
 
+var stuckSeen bool
+
 func exploreScenario(c *core.Ctx, sc SchedCase) {
 	// references first (sequential, cold cache)
 	for _, th := range sc.Threads {
@@ -385,7 +396,17 @@ func exploreScenario(c *core.Ctx, sc SchedCase) {
 	}
 	maxPoints := 0
 	core.Explore(c, core.ExploreOpts{Bound: sc.Bound, ShardDepth: 3}, func(ch *core.Chooser, owned bool) {
+		if stuckSeen {
+			// a thread of an earlier execution is still blocked somewhere: nothing run after it in this
+			// process is a controlled execution any more
+			ch.Abandon()
+			return
+		}
 		results, s := execute(sc, func(n int) int { return ch.Choose(n) })
+		if s.Stuck {
+			stuckSeen = true
+			c.Cap("an execution got stuck outside the hooked operations: the remaining schedules of this shard were not explored")
+		}
 		if s.Points > maxPoints {
 			maxPoints = s.Points
 		}
@@ -544,6 +565,46 @@ func run(c *core.Ctx) {
 			}
 		}
 	})
+	// the rune dimension: every code point of the BMP (thorough: every Unicode scalar value) alone, glued in
+	// front of an irregular word and as the last rune of a regular one - totality and purity only
+	maxRune := rune(c.Pick(0xFFFF, utf8.MaxRune))
+	c.Bound("every_code_point_up_to", fmt.Sprintf("U+%04X in contexts r, r+person, bo+r", maxRune))
+	for r := rune(0); r <= maxRune; r++ {
+		if r >= 0xD800 && r <= 0xDFFF {
+			continue
+		}
+		if !c.Next() {
+			continue
+		}
+		for _, s := range []string{string(r), string(r) + "person", "bo" + string(r)} {
+			for f := range fns {
+				checkTotalPure(c, f, s)
+			}
+		}
+		// the code point as a prefix in front of a word boundary: the prefix-preservation oracle
+		checkPrefix(c, 0, string(r)+" ", "person")
+		checkPrefix(c, 1, string(r)+"-", "men")
+		if lenChanging(r) {
+			// code points whose lower/upper/title mapping has another UTF-8 length, repeated so that
+			// any offset computed on a case-mapped copy is off by more than the length of the word
+			for _, w := range []string{"ox", "opus", "person"} {
+				checkPrefix(c, 0, strings.Repeat(string(r), 6)+" ", w)
+			}
+			checkPrefix(c, 1, strings.Repeat(string(r), 6)+"-", "oxen")
+		}
+	}
+	// invalid UTF-8 in the prefix (case mapping widens every bad byte to U+FFFD)
+	for _, bad := range []string{"\xff ", "\xff\xfe\xfd ", "a\xc0\xaf-", "\xe2\x82 \xff-"} {
+		if c.Next() {
+			// (only words that are irregular for the direction fall under the prefix claim)
+			for _, w := range []string{"person", "ox"} {
+				checkPrefix(c, 0, bad, w)
+			}
+			for _, w := range []string{"men", "people"} {
+				checkPrefix(c, 1, bad, w)
+			}
+		}
+	}
 	// fresh-process sequences: all sequences of length <=3 (quick 2) over 8 (function, input) pairs
 	par := make(chan struct{}, 4)
 	var wg sync.WaitGroup
@@ -621,7 +682,7 @@ func init() {
 	core.RegisterWorker("c20seq", seqWorker)
 	core.Register(&core.Prop{
 		ID: "C20", Level: "model_checking", Run: run, Replay: replay,
-		Rule: "sequential: every irregular word (both columns of both rules, read from the tree) x 3 cases x 10 prefixes x both functions with the prefix-preservation oracle, every uninflected pattern instance likewise (totality/purity), folding-sensitive variants (U+017F, U+212A) of every irregular word, all strings <=3 (4) over a 10-symbol alphabet, all fresh-process call sequences of length 2 (3) over 8 (function,input) pairs; concurrent: ALL interleavings at the hooked sync.Map/OnceValue operations of 7 caller scenarios (2-3 goroutines x 1-2 calls, cold and pre-warmed caches; the 3x2 scenario with deviation bound 3), every return compared with the sequential reference, deadlock = violation; complement: free-running -race pass (cold starts: fresh processes whose first use of the package is made by 16 goroutines at once; then 200 rounds of 8 warm callers). Non-trivial = prefixed inputs, sequences, schedules; states = distinct schedules (by trace) and outcome classes",
+		Rule: "sequential: every irregular word (both columns of both rules, read from the tree) x 3 cases x 10 prefixes x both functions with the prefix-preservation oracle, every uninflected pattern instance likewise (totality/purity), folding-sensitive variants (U+017F, U+212A) of every irregular word, all strings <=3 (5) over a 10-symbol alphabet, every BMP code point (thorough: every Unicode scalar value) alone / glued in front of an irregular word / as last rune / as a prefix in front of a word boundary (prefix oracle; code points whose case mapping changes the UTF-8 length also repeated 6 times), invalid UTF-8 prefixes, all fresh-process call sequences of length 2 (3) over 8 (function,input) pairs; concurrent: ALL interleavings at the hooked sync.Map/OnceValue operations of 7 caller scenarios (2-3 goroutines x 1-2 calls, cold and pre-warmed caches; the 3x2 scenario with deviation bound 3), every return compared with the sequential reference, deadlock = violation; complement: free-running -race pass (cold starts: fresh processes whose first use of the package is made by 16 goroutines at once; then 200 rounds of 8 warm callers). Non-trivial = prefixed inputs, sequences, schedules; states = distinct schedules (by trace) and outcome classes",
 		Assumptions: []string{
 			"scheduling points are the sync operations of pkg/inflector (rewritten to the zzsync shim by overlay); unsynchronised accesses are the race pass' job",
 			"prefixes end in an ASCII non-word character (the statement's 'word boundary'); a non-ASCII letter glued to the word is outside the alphabet",
